@@ -19,7 +19,7 @@ def nontrivial(sc, res):
 
 def sample(sc, res):
     return dict(stacks=[dict(max_cmdt=s['max_cmdt']) for s in sc['stacks']], lat=sc['lat'],
-                sends=[dict(t=e['t'], stack=e['s'], pf=e['a'][1], ps=e['a'][2], sa=e['a'][4], length=e['a'][5]['len']) for e in sc['script']][:4],
+                sends=[dict(t=e['t'], stack=e['s'], pf=e['a'][1], ps=e['a'][2], sa=e['a'][4], length=e['a'][5]['len']) for e in sc['script'] if e['op'] == 'send'][:4],
                 frames_on_bus=sum(1 for e in res.trace if e[2] == 'tx'))
 
 
@@ -75,7 +75,8 @@ def run(out, tier, rng, work):
                 'residues mod 7 incl. 0,1,7,8,9,1784,1785, window pairs from {1,2,3,7,8,127,254,255,random}, per-receiver latencies '
                 'from {0 (re-entrant),1us,0.5ms,5ms}; oracle: observed callbacks == expected deliveries + one EndOfMsgACK report per '
                 'completed CMDT; every handler log replayed on the Coq model (digest of all outputs and state summaries); '
-                'non-trivial = at least one TP.CM/TP.DT frame on the bus; distinct by scenario hash')
+                'non-trivial = at least one TP.CM/TP.DT frame on the bus; distinct by scenario hash'
+                " Plus: 'moved CA' family (the addressed CA lost its preferred address and holds the next one), cyclic application timers on the ECUs in a quarter of the scenarios, and the closed-loop correspondence of the network model (Net21.v) against two real stacks incl. broadcast.")
     out.assumptions = ['A1-A6 of DESIGN.md section 3 (exact clock, atomic zero-duration handlers, FIFO bus per receiver)',
                        'the closed-loop theorem (T01.8) is for one transfer between two otherwise idle nodes without pacing, under the '
                        'schedule of Net21.v (frames first, then the job threads); any-schedule and many-transfer network theorems are '
